@@ -129,5 +129,17 @@ EXTRA_TEXT5 = {
 }
 for _k, _v in EXTRA_TEXT5.items():
     CHECKS[_k]["text"] += _v
+EXTRA_TEXT6 = {
+ "C02": " Wave 10: the conditional edges that lead only to an error result on the reconstruction path are counted against the reference as well (a guard in front of an existing Err arm).",
+ "C03": " Wave 10: each fetch function of the Huffman reader is exactly one decode_symbol call on the block's tree with no decision of its own.",
+ "C04": " Wave 10: surface item rejection_edges (refusing decisions on the reconstruction path).",
+ "C05": " Wave 10: the upper-bound engine treats a field stored from +, * or << on its own value as an accumulator bounded by its type only, so narrowed counters reach the narrow-arithmetic rule.",
+ "C06": " Wave 10: on the accepting path only outcomes of the probes, of the header skipper and of ? and compiler-made drop flags are exempt; any other helper outcome is an extra accept condition.",
+ "C07": " Wave 10: refusing decisions of the writer path counted with the error constructions.",
+ "C08": " Wave 10: an Option parameter of a shared predictor method that the reconstruction can only fill with None has no use outside log output; refusing decisions on the reconstruction path counted against the reference.",
+ "C10": " Wave 10: overflow-checked accumulations in the codec need 2^16 operations before they can fire, counting the accumulator's own width.",
+}
+for _k, _v in EXTRA_TEXT6.items():
+    CHECKS[_k]["text"] += _v
 for _k, _v in NOTE_FIX.items():
     CHECKS[_k]["note"] = _v
